@@ -175,6 +175,12 @@ package yubiagent
 //@   ensures [one-list-slots-request] calls(client.call) == k0 + 1 && arg(client.call, k0, 0) == c && len(arg(client.call, k0, 1)) == 1 &&
 //@     argc(client.call, k0, 1)[off(arg(client.call, k0, 1))] == 32
 //@   ensures [transport-failure-is-an-error] ret(client.call, k0, 1) != nil ==> (slots == nil && err == ret(client.call, k0, 1))
+//@   let u0 = old(calls(ssh.Unmarshal))
+//@   ensures [the-reply-frame-is-decoded] ret(client.call, k0, 1) == nil ==> (calls(ssh.Unmarshal) == u0 + 1 && arg(ssh.Unmarshal, u0, 0) == ret(client.call, k0, 0) &&
+//@     typeof(arg(ssh.Unmarshal, u0, 1)) == *agentListSlotsResp)
+//@   ensures [undecodable-reply-is-an-error] (ret(client.call, k0, 1) == nil && ret(ssh.Unmarshal, u0, 0) != nil) ==> (slots == nil && err == ret(ssh.Unmarshal, u0, 0))
+//@   ensures [slots-and-error-come-from-the-reply] (ret(client.call, k0, 1) == nil && ret(ssh.Unmarshal, u0, 0) == nil) ==>
+//@     (slots == arg(ssh.Unmarshal, u0, 1).(*agentListSlotsResp).Slots && (err == nil <==> arg(ssh.Unmarshal, u0, 1).(*agentListSlotsResp).Err == ""))
 
 //@ func (*client).ReadSlot(c, slot)
 //@   requires c != nil && cinv(c) && cfree(c)
@@ -183,6 +189,16 @@ package yubiagent
 //@   ensures [one-read-slot-request-naming-the-slot] calls(client.call) == k0 + 1 && arg(client.call, k0, 0) == c && len(arg(client.call, k0, 1)) == 1 + len(slot) &&
 //@     argc(client.call, k0, 1)[off(arg(client.call, k0, 1))] == 33 && forall(j, 0 <= j && j < len(slot), argc(client.call, k0, 1)[off(arg(client.call, k0, 1)) + 1 + j] == slot[j])
 //@   ensures [transport-failure-is-an-error] ret(client.call, k0, 1) != nil ==> (cert == nil && err == ret(client.call, k0, 1))
+//@   let u0 = old(calls(ssh.Unmarshal))
+//@   let p0 = old(calls(ParsePEMCertificate))
+//@   ensures [the-reply-frame-is-decoded] ret(client.call, k0, 1) == nil ==> (calls(ssh.Unmarshal) == u0 + 1 && arg(ssh.Unmarshal, u0, 0) == ret(client.call, k0, 0) &&
+//@     typeof(arg(ssh.Unmarshal, u0, 1)) == *agentReadSlotResp)
+//@   ensures [undecodable-reply-is-an-error] (ret(client.call, k0, 1) == nil && ret(ssh.Unmarshal, u0, 0) != nil) ==> (cert == nil && err == ret(ssh.Unmarshal, u0, 0))
+//@   ensures [remote-error-is-an-error] (ret(client.call, k0, 1) == nil && ret(ssh.Unmarshal, u0, 0) == nil && arg(ssh.Unmarshal, u0, 1).(*agentReadSlotResp).Err != "") ==>
+//@     (cert == nil && err != nil && calls(ParsePEMCertificate) == p0)
+//@   ensures [certificate-is-the-first-of-the-reply-bundle] (ret(client.call, k0, 1) == nil && ret(ssh.Unmarshal, u0, 0) == nil && arg(ssh.Unmarshal, u0, 1).(*agentReadSlotResp).Err == "") ==>
+//@     (calls(ParsePEMCertificate) == p0 + 1 && arg(ParsePEMCertificate, p0, 0) == arg(ssh.Unmarshal, u0, 1).(*agentReadSlotResp).Cert &&
+//@      cert == ret(ParsePEMCertificate, p0, 0) && err == ret(ParsePEMCertificate, p0, 1))
 
 //@ func (*client).AttestSlot(c, slot)
 //@   requires c != nil && cinv(c) && cfree(c)
@@ -191,6 +207,16 @@ package yubiagent
 //@   ensures [one-attest-slot-request-naming-the-slot] calls(client.call) == k0 + 1 && arg(client.call, k0, 0) == c && len(arg(client.call, k0, 1)) == 1 + len(slot) &&
 //@     argc(client.call, k0, 1)[off(arg(client.call, k0, 1))] == 34 && forall(j, 0 <= j && j < len(slot), argc(client.call, k0, 1)[off(arg(client.call, k0, 1)) + 1 + j] == slot[j])
 //@   ensures [transport-failure-is-an-error] ret(client.call, k0, 1) != nil ==> (cert == nil && err == ret(client.call, k0, 1))
+//@   let u0 = old(calls(ssh.Unmarshal))
+//@   let p0 = old(calls(ParsePEMCertificate))
+//@   ensures [the-reply-frame-is-decoded] ret(client.call, k0, 1) == nil ==> (calls(ssh.Unmarshal) == u0 + 1 && arg(ssh.Unmarshal, u0, 0) == ret(client.call, k0, 0) &&
+//@     typeof(arg(ssh.Unmarshal, u0, 1)) == *agentReadSlotResp)
+//@   ensures [undecodable-reply-is-an-error] (ret(client.call, k0, 1) == nil && ret(ssh.Unmarshal, u0, 0) != nil) ==> (cert == nil && err == ret(ssh.Unmarshal, u0, 0))
+//@   ensures [remote-error-is-an-error] (ret(client.call, k0, 1) == nil && ret(ssh.Unmarshal, u0, 0) == nil && arg(ssh.Unmarshal, u0, 1).(*agentReadSlotResp).Err != "") ==>
+//@     (cert == nil && err != nil && calls(ParsePEMCertificate) == p0)
+//@   ensures [certificate-is-the-first-of-the-reply-bundle] (ret(client.call, k0, 1) == nil && ret(ssh.Unmarshal, u0, 0) == nil && arg(ssh.Unmarshal, u0, 1).(*agentReadSlotResp).Err == "") ==>
+//@     (calls(ParsePEMCertificate) == p0 + 1 && arg(ParsePEMCertificate, p0, 0) == arg(ssh.Unmarshal, u0, 1).(*agentReadSlotResp).Cert &&
+//@      cert == ret(ParsePEMCertificate, p0, 0) && err == ret(ParsePEMCertificate, p0, 1))
 
 //@ # operations of the standard agent protocol: handed to the x/crypto client with the same arguments, under the connection lock
 //@ func (*client).List(c)
